@@ -295,7 +295,7 @@ def run_restore_key(run, P):
                                   (short(t['a'][1]), 'the value read from the file' if st.get(kv) == 'disk' else 'of unknown origin'), ctx.path())
             return None
         solve(f, Env({'k': ()}), on_event, None, keys, R, key_fn=lambda e: e.ts.get('k'))
-    run.require(n >= 1 or run.fixture_mode, 'R-PERSIST(restored key): no function both re-creates subscriptions and rewrites their records')
+    run.require_count(n >= 1 or run.fixture_mode, 'R-PERSIST(restored key): no function both re-creates subscriptions and rewrites their records')
 
 
 def run_copy_through(run, P):
@@ -374,7 +374,7 @@ def run_copy_through(run, P):
                         run.violation('R-PERSIST', f['name'], ev['loc'], 'kept-record-written-with-foreign-field:arg%d' % i,
                                       'a record that is only being copied into the new file is written with %s as argument %d, which the read call of this loop did not fill: the '
                                       'record on disk is no longer the one that was read' % (short(a)[:40], i), [])
-    run.require(n >= (4 if run.cfg == 'base' else 0) or run.fixture_mode, 'R-PERSIST(copy-through): fewer than 4 record writes inside record-reading loops found')
+    run.require_count(n >= (4 if run.cfg == 'base' else 0) or run.fixture_mode, 'R-PERSIST(copy-through): fewer than 4 record writes inside record-reading loops found')
 
 
 def run_no_remove(run, P):
@@ -406,7 +406,7 @@ def run_no_remove(run, P):
             run.violation('R-PERSIST', f['name'], ev['loc'], 'real-file-removed',
                           '%s() is applied to %s, the destination of the rename() in this function: from here until the rename the file does not exist, a crash in between '
                           'loses the old and the new state' % (t['fn'], short(strip(t['a'][0]))[:50]), [])
-    run.require(n >= (5 if run.cfg == 'base' else 0) or run.fixture_mode, 'R-PERSIST(one atomic step): fewer than 5 functions that rename() found')
+    run.require_count(n >= (5 if run.cfg == 'base' else 0) or run.fixture_mode, 'R-PERSIST(one atomic step): fewer than 5 functions that rename() found')
 
 
 def run_raw_packet(run, P):
@@ -449,7 +449,7 @@ def run_raw_packet(run, P):
                 run.violation('R-PERSIST', f['name'], lloc, 'raw-packet-length-without-header',
                               'the persisted request starts hdr_size bytes in front of the token but its length is %s, which does not add that header size to used_size: the '
                               'stored packet is cut short at the end and cannot be parsed (or loses payload) after a restart' % short(expr)[:50], [])
-    run.require(n >= (2 if run.cfg == 'base' else 0) or run.fixture_mode, 'R-PERSIST(raw packet): fewer than 2 places that build a raw packet for persistence found')
+    run.require_count(n >= (2 if run.cfg == 'base' else 0) or run.fixture_mode, 'R-PERSIST(raw packet): fewer than 2 places that build a raw packet for persistence found')
 
 
 def run_load_order(run, P, creator='coap_add_resource_lkd', finder='coap_get_resource_from_uri_path_lkd'):
@@ -508,4 +508,51 @@ def run_load_order(run, P, creator='coap_add_resource_lkd', finder='coap_get_res
                     run.violation('R-PERSIST', f['name'], uloc, 'restored-before-resources-exist:%s' % ufn,
                                   '%s() restores per-resource state by path and skips records whose resource does not exist, but %s(), which creates the dynamic resources, '
                                   'runs after it (%s): everything saved for a dynamic resource is dropped at start-up' % (ufn, mfn, mloc.rsplit('/', 1)[-1]), [])
-    run.require(n >= 1 or run.fixture_mode or run.cfg != 'base', 'R-PERSIST(load order): no function that calls both kinds of loaders found (expected coap_persist_startup_lkd)')
+    run.require_count(n >= 1 or run.fixture_mode or run.cfg != 'base', 'R-PERSIST(load order): no function that calls both kinds of loaders found (expected coap_persist_startup_lkd)')
+
+
+def run_track_order(run, P, slot='track_observe_value', field='observe'):
+    """R-PERSIST (recorded value is the used value): the start-up loader resumes at saved + save_freq - 1, which only exceeds everything sent
+    before a crash if a value reaches the tracking call-out (and through it the file) BEFORE it goes on the wire.  So in a function that
+    both steps X->observe and calls through the `track_observe_value` slot, no step of the field is reachable in the control-flow graph
+    from the call: the value handed to the call-out is the one the next notification carries.  Stepping after recording leaves the file
+    one notification behind -- after a crash at the wrong moment the first Observe value repeats the last one sent."""
+    from core.prog import succs, callee_field
+    run.rule('R-PERSIST')
+    n = 0
+    for f in sorted(P.lib_funcs(), key=lambda f: f['name']):
+        calls, steps = [], []
+        for b in f['blocks']:
+            for i, ev in enumerate(b['elems']):
+                t = ev['e']
+                if not ev.get('top', True):
+                    continue
+                if t.get('k') == 'call' and callee_field(t) == slot:
+                    calls.append((b['id'], i, ev['loc']))
+                if t.get('k') in ('asg', 'un'):
+                    l = strip(t['l']) if t.get('k') == 'asg' else strip(t.get('e'))
+                    if isinstance(l, dict) and l.get('k') == 'mem' and l.get('f') == field and l.get('rec') == 'coap_resource_t' and \
+                       (t.get('k') == 'un' or any(isinstance(x, dict) and x.get('k') == 'mem' and x.get('f') == field for x in walk(t['r'])) or t.get('op') != '='):
+                        steps.append((b['id'], i, ev['loc']))
+        if not calls or not steps:
+            continue
+        B = f['B']
+        for cb, ci, cloc in calls:
+            reach = set()
+            work = list(succs(B[cb]))
+            while work:
+                x = work.pop()
+                if x in reach:
+                    continue
+                reach.add(x)
+                work.extend(succs(B[x]))
+            for sb, si, sloc in steps:
+                n += 1
+                bad = sb in reach or (sb == cb and si > ci)
+                run.instance('R-PERSIST', '%s: the Observe counter is not stepped after it was handed to the tracking call-out' % f['name'])
+                run.oblige('R-PERSIST', not bad, '%s:recorded-after-stepped' % f['name'])
+                if bad:
+                    run.violation('R-PERSIST', f['name'], sloc, 'counter-stepped-after-recorded',
+                                  'the Observe counter is stepped here, after it was handed to the %s call-out (%s): the file holds the value BEFORE the one the next '
+                                  'notification carries, so after a crash the restart value can equal the last value sent' % (slot, cloc.rsplit('/', 1)[-1]), [])
+    run.require_count(n >= 1 or run.fixture_mode or run.cfg != 'base', 'R-PERSIST(recorded value): no function that steps the Observe counter and calls the tracking call-out found')
